@@ -39,9 +39,9 @@ fn mechanisms(s: &Stats) -> u32 {
 const C02_OR: Oracles = Oracles { returns: true, quiescent: false, ledger: false, canary: false, capacity: false, cmp_bound: false, growth: false };
 
 fn c02_shard(ctx: &Ctx, out: &mut ShardOut) {
-    let n_map = ctx.share(ctx.by_tier(3000, 100_000)) as u32;
-    let n_set = ctx.share(ctx.by_tier(1000, 30_000)) as u32;
-    let n_copy = ctx.share(ctx.by_tier(600, 20_000)) as u32;
+    let n_map = ctx.share(ctx.by_tier(20_000, 300_000)) as u32;
+    let n_set = ctx.share(ctx.by_tier(6000, 80_000)) as u32;
+    let n_copy = ctx.share(ctx.by_tier(4000, 60_000)) as u32;
     drive(ctx, "map", ctx.shard_seed(1), n_map, seq_case_strategy(false, 200), out, |c| {
         let s = run_map_case(c, C02_OR).map_err(|f| to_casefail("C02", f))?;
         Ok(CaseInfo { nontrivial: mechanisms(&s) >= 2, classes: stats_classes(&s), evaluations: 1, sub_hashes: vec![] })
@@ -183,7 +183,7 @@ fn run_copy_case(c: &CopyCase) -> Result<(), String> {
 const C05_OR: Oracles = Oracles { returns: false, quiescent: true, ledger: false, canary: false, capacity: false, cmp_bound: false, growth: false };
 
 fn c05_shard(ctx: &Ctx, out: &mut ShardOut) {
-    let n_map = ctx.share(ctx.by_tier(6000, 150_000)) as u32;
+    let n_map = ctx.share(ctx.by_tier(15_000, 300_000)) as u32;
     let n_set = ctx.share(ctx.by_tier(1500, 40_000)) as u32;
     drive(ctx, "map", ctx.shard_seed(1), n_map, seq_case_strategy(false, 160), out, |c| {
         let s = run_map_case(c, C05_OR).map_err(|f| to_casefail("C05", f))?;
@@ -216,7 +216,7 @@ fn c05_replay(sub: &str, case: &Value) -> Result<(), CaseFail> {
 const C04_OR: Oracles = Oracles { returns: false, quiescent: false, ledger: true, canary: true, capacity: false, cmp_bound: false, growth: false };
 
 fn c04_shard(ctx: &Ctx, out: &mut ShardOut) {
-    let n_map = ctx.share(ctx.by_tier(5000, 150_000)) as u32;
+    let n_map = ctx.share(ctx.by_tier(15_000, 300_000)) as u32;
     let n_set = ctx.share(ctx.by_tier(1000, 30_000)) as u32;
     drive(ctx, "map", ctx.shard_seed(1), n_map, seq_case_strategy(false, 160), out, |c| {
         let s = run_map_case(c, C04_OR).map_err(|f| to_casefail("C04", f))?;
@@ -295,7 +295,7 @@ fn c06_case_strategy() -> impl Strategy<Value = SeqCase> {
 }
 
 fn c06_shard(ctx: &Ctx, out: &mut ShardOut) {
-    let n = ctx.share(ctx.by_tier(2500, 80_000)) as u32;
+    let n = ctx.share(ctx.by_tier(12_000, 200_000)) as u32;
     drive(ctx, "map", ctx.shard_seed(1), n, c06_case_strategy(), out, |c| {
         let s = run_map_case(c, C06_OR).map_err(|f| to_casefail("C06", f))?;
         let mut cl = stats_classes(&s);
@@ -434,7 +434,7 @@ fn run_sweep_case(c: &SweepCase) -> Result<(), String> {
 }
 
 fn c14_shard(ctx: &Ctx, out: &mut ShardOut) {
-    let n = ctx.share(ctx.by_tier(4000, 120_000)) as u32;
+    let n = ctx.share(ctx.by_tier(20_000, 300_000)) as u32;
     drive(ctx, "map", ctx.shard_seed(1), n, c14_case_strategy(), out, |c| {
         let s = run_map_case(c, C14_OR).map_err(|f| to_casefail("C14", f))?;
         let mut cl = stats_classes(&s);
@@ -442,7 +442,7 @@ fn c14_shard(ctx: &Ctx, out: &mut ShardOut) {
         Ok(CaseInfo { nontrivial: s.removal_near_threshold > 0, classes: cl, evaluations: s.steps.max(1), sub_hashes: vec![] })
     });
     // capacity sweep: an enumeration, sharded by residue class
-    let max_c: u32 = ctx.by_tier(2048, 8192) as u32;
+    let max_c: u32 = ctx.by_tier(6000, 20_000) as u32;
     let mut cases: Vec<SweepCase> = (0..=max_c).map(|c| SweepCase { kind: 0, c, pre: 0 }).collect();
     let top = ctx.by_tier(17, 21) as u32;
     for p in 12..=top {
